@@ -370,6 +370,15 @@ class Tree(object):
             return self.name[n]
         return ''.join(self.text(c) for c in self.kids[n])
 
+    def descendants(self, n, out=None):
+        """all nodes below n in document order (child lists only)"""
+        if out is None:
+            out = []
+        for c in (self.kids[n] or ()):
+            out.append(c)
+            self.descendants(c, out)
+        return out
+
     def bytag(self, n, tag, out=None):
         """elements named `tag` below n in document order; attribute-held fragments are searched before the children"""
         if out is None:
